@@ -44,7 +44,7 @@ func init() {
 	registry["C13"] = func() *Property {
 		return &Property{
 			ID:          "C13",
-			Explanation: "Width clause only, decided by inference of an inductive loop invariant (engine E9): ansi.Wrap and ansi.DumbWrap are one loop over the matches of ansi.expand; strings are abstracted to an upper bound of their number of visible characters (whole string, or last line for an accumulator that receives line feeds), the state of the loop is the phis of its header, and the strongest inductive invariant inside a template family of linear facts over the counters, the width and the string bounds (n >= 0, n <= w, sums <= w, `m = 0 or sum <= w`, W(s) <= n) is computed Houdini style over all acyclic header-to-header paths, with exact linear reasoning (simplex over the rationals). Decided: (R0) ansi.expand returns the matches of a pattern that consumes exactly one character outside escape sequences per match, so a match is one visible character; (R1) every line ansi.Wrap completes — every element appended to the slice it joins with line feeds — has at most `length` visible characters on every path, for every width >= 1; (R2) the same for ansi.DumbWrap's accumulator at every point where a character or line feed is added; (R3) with lower bounds next to the upper ones (a piece of a match counts towards a lower bound only where the path knows its character is no line feed), every line ansi.Pad completes, and the last line it returns, has at least `length` visible characters and exactly `length` where padding was added; (R4) DumbWrap, Pad and Indent keep every character: each is one loop over the matches of expand(text) in ascending order, and every acyclic path round the loop appends to the one accumulator, at its end, inserted material and the content of the current match exactly once — the whole match (escape sequences included) when the character is no line feed, a line feed when it is; nothing of the text is appended after the loop; (R5) every line feed ansi.Indent emits is directly followed by the prefix, a match that may be a line feed is never copied as it is, and the accumulator enters the loop as the prefix exactly on the includeFirst arm. (R6) ansi.Wrap keeps every character that is not a blank, in order: the exit path that flushes every buffer gives the logical order of the buffers (completed lines, current line, pending blanks, word), every buffer's new value on a path is evaluated symbolically to a sequence of old buffer contents, the current character and constants, and on every path round the loop and out of it the buffers read in logical order must hold what they held before followed by the current character, up to buffers that are provably empty on that path (invariant of R1 and path facts, by LP), buffers that only ever receive blanks, the current character where it is known to be a blank, and blank constants; on a path that knows the character to be a line feed a line is completed; a buffer other than the current line is pushed as a line of its own only where its counter has provably reached the width. (R7) ansi.Snip returns at most `height` lines that are a gap-free prefix of the lines of its text, in order, plus at most the ellipsis: the index starts at min(len(lines), height)-1 with nothing kept, drops by exactly one on every path round the loop while the kept slice grows by one line or not at all, what is kept is collapse(expand(lines[i])) possibly without its tail, put in front of what was kept before, a trip keeps nothing only while nothing is kept yet, the result is the kept lines joined with line feeds plus possibly the ellipsis parameter, and every caller passes a constant ellipsis without a line feed. NOT decided: which blanks Wrap keeps; that Wrap breaks lines only where it must.",
+			Explanation: "Width clause only, decided by inference of an inductive loop invariant (engine E9): ansi.Wrap and ansi.DumbWrap are one loop over the matches of ansi.expand; strings are abstracted to an upper bound of their number of visible characters (whole string, or last line for an accumulator that receives line feeds), the state of the loop is the phis of its header, and the strongest inductive invariant inside a template family of linear facts over the counters, the width and the string bounds (n >= 0, n <= w, sums <= w, `m = 0 or sum <= w`, W(s) <= n) is computed Houdini style over all acyclic header-to-header paths, with exact linear reasoning (simplex over the rationals). Decided: (R0) ansi.expand returns the matches of a pattern that consumes exactly one character outside escape sequences per match, so a match is one visible character; (R1) every line ansi.Wrap completes — every element appended to the slice it joins with line feeds — has at most `length` visible characters on every path, for every width >= 1; (R2) the same for ansi.DumbWrap's accumulator at every point where a character or line feed is added; (R3) with lower bounds next to the upper ones (a piece of a match counts towards a lower bound only where the path knows its character is no line feed), every line ansi.Pad completes, and the last line it returns, has at least `length` visible characters and exactly `length` where padding was added; (R4) DumbWrap, Pad and Indent keep every character: each is one loop over the matches of expand(text) in ascending order, and every acyclic path round the loop appends to the one accumulator, at its end, inserted material and the content of the current match exactly once — the whole match (escape sequences included) when the character is no line feed, a line feed when it is; nothing of the text is appended after the loop; (R5) every line feed ansi.Indent emits is directly followed by the prefix, a match that may be a line feed is never copied as it is, and the accumulator enters the loop as the prefix exactly on the includeFirst arm. (R6) ansi.Wrap keeps every character that is not a blank, in order: the exit path that flushes every buffer gives the logical order of the buffers (completed lines, current line, pending blanks, word), every buffer's new value on a path is evaluated symbolically to a sequence of old buffer contents, the current character and constants, and on every path round the loop and out of it the buffers read in logical order must hold what they held before followed by the current character, up to buffers that are provably empty on that path (invariant of R1 and path facts, by LP), buffers that only ever receive blanks, the current character where it is known to be a blank, and blank constants; on a path that knows the character to be a line feed a line is completed; a buffer other than the current line is pushed as a line of its own only where its counter has provably reached the width. (R7) ansi.Snip returns at most `height` lines that are a gap-free prefix of the lines of its text, in order, plus at most the ellipsis: the index starts at min(len(lines), height)-1 with nothing kept, drops by exactly one on every path round the loop while the kept slice grows by one line or not at all, what is kept is collapse(expand(lines[i])) possibly without its tail, put in front of what was kept before, a trip keeps nothing only while nothing is kept yet, the result is the kept lines joined with line feeds plus possibly the ellipsis parameter, and every caller passes a constant ellipsis without a line feed. (R8) every unicode.IsSpace / IsPrint / IsControl in package ansi is asked of a rune of the text, never of a byte of its UTF-8 encoding. (R7, third shape) a Snip without a collecting loop is decided path by path on slices of the lines.  NOT decided: which blanks Wrap keeps; that Wrap breaks lines only where it must.",
 			Assumptions: []string{"width >= 1 (the property's own precondition)", "regexp semantics: FindAllStringSubmatch returns non-overlapping matches, element 0 the whole match", "a visible character is one match of ansi.expand (escape sequences inside a match are not visible)"},
 			Rules: []Rule{
 				{ID: "C13.R0", Title: "ansi.expand yields one visible character per match", Floor: 2, Run: c13R0},
@@ -54,6 +54,7 @@ func init() {
 				{ID: "C13.R4", Title: "DumbWrap, Pad and Indent keep every character, with its escape sequences, in order, and every line break", Floor: 10, Run: c13Content},
 				{ID: "C13.R5", Title: "ansi.Indent puts the prefix after every line feed, and in front of the first line exactly when asked", Floor: 3, Run: c13IndentShape},
 				{ID: "C13.R6", Title: "ansi.Wrap keeps every character that is not a blank, in order; line feeds complete lines; words are cut only at the width", Floor: 12, Run: c13WrapContent},
+				{ID: "C13.R8", Title: "what counts as a blank is decided on the visible character, not on a byte of it: every unicode.IsSpace in package ansi is given the first rune of the character", Floor: 2, Run: c13R8},
 				{ID: "C13.R7", Title: "ansi.Snip returns at most `height` lines: a gap-free prefix of the lines of the text, in order, plus at most the ellipsis", Floor: 6, Run: c13Snip},
 			},
 		}
@@ -2379,6 +2380,10 @@ func c13Snip(c *Ctx) {
 			}
 		}
 	}
+	if nLoops == 0 {
+		c13SnipSliced(c, fn)
+		return
+	}
 	if !c.check(nLoops == 1, fname+"/snip-loop", pos, fname, "one loop collects lines", fmt.Sprintf("%d loops in Snip collect lines where one walk over the lines is expected: that at most `height` lines forming a prefix of the text are returned cannot be established", nLoops)) {
 		return
 	}
@@ -2638,4 +2643,71 @@ func boolTestOf(cond, p ssa.Value) (polarity, ok bool) {
 		}
 	}
 	return false, false
+}
+
+// c13R8: Wrap breaks lines at blanks and Snip drops blank lines; which
+// characters are blanks is asked of unicode.IsSpace. The argument has to be a
+// rune of the character — element 0 of `[]rune(s)`, a rune produced by a range
+// over the string, or utf8.DecodeRuneInString — and never a byte of its UTF-8
+// encoding turned into a rune: for every character beyond ASCII that would be
+// another character (U+3000 starts with 0xE3, 'ã').
+func c13R8(c *Ctx) {
+	P := c.P
+	for _, fn := range P.FuncsIn("servitor/ansi") {
+		fname := FuncName(fn)
+		eachInstr(fn, func(_ *ssa.BasicBlock, _ int, in ssa.Instruction) {
+			call, ok := in.(*ssa.Call)
+			if !ok || !(isLibCall(&call.Call, "unicode", "", "IsSpace") || isLibCall(&call.Call, "unicode", "", "IsPrint") || isLibCall(&call.Call, "unicode", "", "IsControl")) {
+				return
+			}
+			arg := call.Call.Args[0]
+			why := ""
+			var judge func(v ssa.Value, d int) bool
+			judge = func(v ssa.Value, d int) bool {
+				if d > 6 {
+					why = "the classified value is of unknown origin"
+					return false
+				}
+				switch x := unwrapLoad(v).(type) {
+				case *ssa.Parameter:
+					return true // a rune handed in as a rune (strings.Map callbacks, helpers): typed by the caller
+				case *ssa.Phi:
+					for _, e := range x.Edges {
+						if !judge(e, d+1) {
+							return false
+						}
+					}
+					return true
+				case *ssa.Extract:
+					if _, isNext := x.Tuple.(*ssa.Next); isNext {
+						return true // range over a string yields runes
+					}
+					if tc, isCall := x.Tuple.(*ssa.Call); isCall && (isLibCall(&tc.Call, "unicode/utf8", "", "DecodeRuneInString") || isLibCall(&tc.Call, "unicode/utf8", "", "DecodeLastRuneInString")) {
+						return true
+					}
+				case *ssa.UnOp:
+					if ia, isIA := x.X.(*ssa.IndexAddr); isIA && x.Op == token.MUL {
+						if sl, isSl := ia.X.Type().Underlying().(*types.Slice); isSl {
+							if b, isB := sl.Elem().Underlying().(*types.Basic); isB && b.Kind() == types.Int32 {
+								return true // an element of a []rune
+							}
+						}
+					}
+				case *ssa.Convert:
+					if b, isB := x.X.Type().Underlying().(*types.Basic); isB && (b.Kind() == types.Uint8 || b.Kind() == types.Int8) {
+						why = "a byte of the character's UTF-8 encoding is turned into a rune and classified: beyond ASCII that is another character, so blanks such as U+3000 or U+00A0 are taken for letters (and some letters for blanks)"
+						return false
+					}
+					return judge(x.X, d+1)
+				case *ssa.Const:
+					return true
+				}
+				if why == "" {
+					why = "the classified value is not a rune of the text (element of a []rune conversion, range over the string, or a decoded rune)"
+				}
+				return false
+			}
+			c.check(judge(arg, 0), fname+"/classified-rune", P.InstrPos(in), fname, "the character class is asked of a rune of the character", why)
+		})
+	}
 }
